@@ -289,6 +289,9 @@ def run(ctx, rep):
     import rules.c02 as c02
     c02.same_security(R, rep, "R5")
     lots_restated_whole(R, rep)
+    # every SPLIT/UNSPLIT line of a day is applied (shared with C01-R2 / C09-R8)
+    import rules.c01 as c01
+    c01.every_line_of_day(R, rep, "R7", only=("apply splits",))
 
 
 def lots_restated_whole(R, rep, rule="R6"):
